@@ -45,14 +45,14 @@ Fam == CASE Family = "quick" -> IF idf \/ bug # "none" THEN "negfam" ELSE IF tar
          [] Family = "genfull" -> IF target = 2 THEN "gen2full" ELSE IF target = 3 THEN "gen3" ELSE "gen4"
          [] OTHER -> Family
 NameChoices ==
-  CASE Fam = "full" -> {N1, N2, N3, N4}
+  CASE Fam = "full" -> {N1, N2, N3}
     [] Fam = "pairs" -> {N1, N2}
     [] Fam \in {"gen3", "gen4", "triples"} -> {N1}
     [] OTHER -> {N1, N2}
 (* character -> glyph (0 = unsupported) for characters 1..5; character 3 is the one the configurations may
    declare default-ignorable (IgnSet) *)
 CmapChoices ==
-  CASE Fam = "full"  -> {<<a, b, c, 0, 0>> : a \in {0, 2}, b \in {0, 2, 3}, c \in {0, 3}} \ {<<0, 0, 0, 0, 0>>}
+  CASE Fam = "full"  -> {<<2, 0, 0, 0, 0>>, <<0, 2, 0, 0, 0>>, <<2, 3, 0, 0, 0>>, <<2, 2, 0, 0, 0>>, <<0, 3, 3, 0, 0>>, <<2, 0, 3, 0, 0>>}
     [] Fam \in {"pairs", "gen2full"} ->
          {<<2, 0, 0, 0, 0>>, <<0, 2, 0, 0, 0>>, <<2, 3, 0, 0, 0>>, <<2, 2, 0, 0, 0>>, <<0, 3, 3, 0, 0>>}
     [] Fam = "gen4" -> {<<2, 0, 0, 0, 0>>, <<0, 2, 0, 0, 0>>, <<0, 0, 0, 2, 0>>, <<0, 0, 0, 0, 2>>}
@@ -62,8 +62,8 @@ ShapeChoices ==
     [] Fam = "gen4" -> {<<1, 500>>}
     [] OTHER -> {<<1, 500>>, <<1, 600>>, <<2, 500>>}
 KitChoices ==
-  CASE Fam = "full" -> {<<"none", "DFLT">>} \cup ({"single", "chain", "unused", "locl", "pos", "both"} \X {"DFLT", "latn"})
-                          \cup {<<"single", "grek">>, <<"both", "grek">>}
+  CASE Fam = "full" -> {<<"none", "DFLT">>} \cup ({"chain", "unused", "locl", "both"} \X {"DFLT", "latn"})
+                          \cup {<<"single", "grek">>, <<"pos", "grek">>}
     [] Fam = "gen2full" ->
          {<<"none", "DFLT">>, <<"single", "latn">>, <<"chain", "latn">>, <<"chain", "DFLT">>,
           <<"unused", "DFLT">>, <<"locl", "latn">>, <<"both", "grek">>}
